@@ -27,6 +27,14 @@ def isConvexExact (p : List Pt) : Bool :=
   let ts := (corners p).map fun (a, b, c) => sgn (cross a b c)
   3 ≤ p.length && (ts.all (· == 1) || ts.all (· == -1))
 
+/-- The hull test again, as the decidable hypothesis of `Ems.C14.fan_partition`: at least
+three vertices, none repeated, strictly convex with one of the two orientations.  This is
+the instance the driver uses for `isConvex`; `isConvexExact` (local turns only) is kept as
+a second, independent formulation and both are compared with GEOS. -/
+def isStrictConvex (p : List Pt) : Bool :=
+  decide (3 ≤ p.length) && decide p.Nodup &&
+    (decide (StrictConvex 1 p) || decide (StrictConvex (-1) p))
+
 def dot (o a b : Pt) : Rat := (a.x - o.x) * (b.x - o.x) + (a.y - o.y) * (b.y - o.y)
 
 /-- The segment `u v` meets the segment `a c` at most in the points `a` and `c`. -/
